@@ -41,6 +41,9 @@ pub enum SerVal {
     /// a type whose `Serialize` asks `is_human_readable()` (std's IP / socket addresses, uuid, …): the first form for
     /// human-readable formats — which `ValueSerializer` is, like serde_json — the second for compact ones
     HumanReadable(Box<SerVal>, Box<SerVal>),
+    /// a type that hands its `Display` text over with `collect_str` (chrono's date types, std's paths, uuid, url, …): in the
+    /// data model that is a string — whatever the text looks like
+    DisplayText(String),
 }
 
 struct Bytes<'a>(&'a [u8]);
@@ -135,6 +138,7 @@ impl Serialize for SerVal {
                 }
                 q.end()
             }
+            DisplayText(x) => s.collect_str(x),
             HumanReadable(a, b) => {
                 if s.is_human_readable() {
                     a.serialize(s)
@@ -190,6 +194,7 @@ pub fn enc_serval(v: &SerVal) -> String {
         // the model knows one map kind and a human-readable serializer
         MapKV(kvs) => enc_serval(&Map(kvs.clone())),
         HumanReadable(a, _) => enc_serval(a),
+        DisplayText(x) => enc_serval(&Str(x.clone())),
     }
 }
 
@@ -416,6 +421,16 @@ pub fn designed() -> Vec<SerVal> {
     out.push(HumanReadable(Box::new(Str("10.0.0.1:80".into())), Box::new(Tuple(vec![Tuple(vec![U8(10), U8(0), U8(0), U8(1)]), U16(80)]))));
     out.push(Struct("Conn".into(), vec![("peer".into(), HumanReadable(Box::new(Str("::1".into())), Box::new(NewtypeVariant("IpAddr".into(), "V6".into(), Box::new(Bytes(vec![0; 16])))))), ("port".into(), U16(443))]));
     out.push(Map(vec![(HumanReadable(Box::new(Str("k".into())), Box::new(U8(1))), HumanReadable(Box::new(U8(1)), Box::new(Str("x".into()))))]));
+    // Display texts handed over with `collect_str`, and plain strings, that read like values of other kinds: a timestamp
+    // (with and without offset), a duration, a number, a boolean, none, a list — they are strings
+    for t in ["2015-07-30T03:26:13Z", "2015-07-30T05:26:13+02:00", "2015-07-30T03:26:13.123456789Z", "2015-07-30", "03:26:13", "PT3600S", "P1D", "1h30m", "42", "-1", "1.5", "d1.5", "i42", "f1e5", "true", "false", "none", "null", "[1, 2]", "{\"a\": 1}", "", " "] {
+        out.push(DisplayText(t.into()));
+        out.push(Str(t.into()));
+        out.push(Struct("Event".into(), vec![("at".into(), DisplayText(t.into())), ("label".into(), Str(t.into()))]));
+        out.push(Seq(vec![DisplayText(t.into()), Some(Box::new(DisplayText(t.into())))]));
+        out.push(Map(vec![(DisplayText(t.into()), DisplayText(t.into()))]));
+        out.push(NewtypeStruct("Stamp".into(), Box::new(DisplayText(t.into()))));
+    }
     // long strings, keys and collections (nothing is abridged)
     out.push(Str("é日😀".repeat(400)));
     out.push(Map(vec![(Str("k".repeat(300)), Str("v".repeat(300)))]));
